@@ -15,6 +15,8 @@ import subprocess
 import time
 
 import vlib
+from props import c11x
+from props import c11x
 
 ORDER = ["pub", "sub", "leave", "hi", "login", "get", "set", "del", "acc", "note"]   # case order of the switch
 TOPIC_KINDS = ["sub", "leave", "pub", "get", "set", "del", "note"]
@@ -674,9 +676,16 @@ def run(ctx):
         ctx.violation("corr", "harness-build-broken", "package-main driver no longer builds against /repo: " + out[-1500:],
                       {"correspondence": "build of harness/overlay against /repo/server"})
         ctx.finish()
+    xreplay = None
     if ctx.replay:
         rp = json.load(open(ctx.replay))
         scns = [Scn.from_json(r["scenario"]) for r in [rp["replay"]] + rp.get("more_cases", []) if isinstance(r, dict) and "scenario" in r]
+        xreplay = [c11x.XScn.from_json(r["scenario_c11x"]) for r in [rp["replay"]] + rp.get("more_cases", [])
+                   if isinstance(r, dict) and r.get("scenario_c11x")]
+        if not scns:
+            # a replay of the sender-header layer only
+            c11x.run_layer(ctx, xreplay)
+            ctx.finish()
     else:
         scns = []
         cdir = os.path.join(vlib.ROOT, "corpus", ctx.pid)
@@ -759,6 +768,9 @@ def run(ctx):
                              " | ".join(m.impl_line() for m in base.msgs), searched),
                           {"correspondence": "projection of C11 (state after each message, dispatch-level and hi/login/acc replies, handler reached, acting user, sender header)",
                            "scenario": base.to_json(), "diff": d})
+    # part x: who chooses head.sender, on every route (tools/props/c11x.py)
+    if xreplay is None or xreplay:
+        c11x.run_layer(ctx, xreplay)
     # coverage
     kinds, replies, states, inits = {}, {}, {}, {}
     nmsgs = 0
@@ -797,6 +809,7 @@ def run(ctx):
             "harness/overlay/server/zz_verif_c11_test.go: real Session.dispatchRaw, real authenticators basic/token/code/anonymous initialised as in main.go above memverif; fake authenticator 'veriffake' and fake validator 'verifcred' are harness code",
             "oracle inputs of the model (what the driver knows about the credentials it sends: account state, password right/wrong, token fields, validator state) are computed in tools/props/c11.py; parseVersion's result and minSupportedVersion are read from the driver",
             "tools/props/c11.py monitors: python restatement of the property's laws on the implementation's trace",
+            "harness/overlay/server/zz_verif_c11x_test.go + tools/props/c11x.py (sender-header layer): real dispatchRaw / hub / topics above memverif; stored rows read through memverif.DumpTopic, {data} frames at the publisher and at persistent observer sessions; whether the topic accepted the message (q_gates) and whether the session was attached (q_attached, read as s.getSub(expandTopicName) before the request) are oracle inputs of the model read from the run; nil and empty head maps are not distinguished in the comparison; the blanking of {data}.from for channel readers (prepareBroadcastableMessage) is outside the model: such a frame is judged against the From of the stored row",
             "not modelled: device id / language handling of {hi}, cluster proxying, plugins (pluginFireHose), the bodies of the seven topic handlers (only whether they are reached, with which acting user, and the {pub} sender header)",
         ],
     })
